@@ -23,7 +23,7 @@ def wire(dfa, subkeys=()):
 
 
 def erase_levels(w):
-    """the same automaton with `||` levels erased from every key (C09)"""
+    """the same automaton with `||` levels and descriptions erased from every key (C09)"""
     st, acc, tr = w.split(";")
     out = []
     for t in tr.split("~"):
@@ -31,6 +31,8 @@ def erase_levels(w):
         parts = k.split(":")
         if parts[0] in ("L", "C", "W"):
             parts[-1] = "0"
+        if parts[0] == "L":
+            parts[2] = "-"   # descriptions play no part in matching
         out.append(f"{f},{':'.join(parts)},{to}")
     return f"{st};{acc};{'~'.join(out)}"
 
